@@ -16,7 +16,8 @@ open Spec
 
 /-- Tree level: the bytes of a message are the BER encoding of a tree which the independent RFC 4511
 reader reads back as exactly the message ID, the operation with all its arguments, and the controls.
-`WFReq`: what the API does not refuse locally (see `C02_rejected_sends_nothing`) and numeric arguments
+`WFReq`: what the API does not refuse locally (see `C02_rejected_sends_nothing`; this excludes the
+nameless `Exop`, on which `extended` panics) and numeric arguments
 within their Rust types (`i32`).  Message IDs of a connection are 1..2^31-1 (C05). -/
 theorem C02_roundtrip (id : Nat) (r : Request) (cs : Option (List RawControl))
     (hid : 1 ≤ id ∧ id < 2147483648) (h : WFReq r) :
@@ -53,7 +54,7 @@ theorem C02_rejected_sends_nothing (s : HState) (h : Nat) (r : Request) :
     (mustReject r = true → (step s (.op h r)).wire = s.wire ∧ (step s (.op h r)).lastId = s.lastId) ∧
     (step s (.searchBadFilter h)).wire = s.wire ∧ (step s (.searchBadFilter h)).lastId = s.lastId := by
   refine ⟨rejected_eq r, ?_, by simp [step], by simp [step]⟩
-  intro hr; rw [step_op]; simp [hr]
+  intro hr; rw [step_op]; by_cases hp : panics r = true <;> simp [hr, hp]
 
 /-- … and which verdict each refusal is -/
 theorem C02_rejected_verdicts (r : Request) :
@@ -69,51 +70,31 @@ theorem C02_rejected_verdicts (r : Request) :
   · intro h; cases r <;> simp only [issue] at h <;> (try split at h) <;> simp_all
   · intro h; cases r <;> simp only [issue] at h <;> (try split at h) <;> simp_all
 
-/-- What the model of the code does on EVERY script: the k-th message sent has ID k and carries exactly
-the controls / timeout / (for a Search) options set on its handle since the last operation on that
-handle *that was not refused locally* (last writer wins; a clone starts empty; a Search with an
-unparsable filter uses them up); any other operation discards pending search options; refused
-operations send nothing.  Afterwards each handle holds what this reading says is pending. -/
-theorem C02_one_shot_as_built (calls : List HandleCall) :
-    (runHandle calls).wire = expectedFrom consumesUnlessRefused [] 0 calls ∧
-    ∀ h, (runHandle calls).handles h = pendingHandle consumesUnlessRefused h calls.reverse :=
-  run_asBuilt calls
-
-/-- THE LAW of the property ("… affect exactly the next operation invoked on it and none after it":
-every invoked operation, refused or not, uses the modifiers up) holds on every script in which no
-operation is refused locally while a modifier is pending on its handle.
-Full statement (FALSE for the code, see `C02_one_shot_fails`):
-  ∀ calls, (runHandle calls).wire = expectedWire calls ∧ ∀ h, (runHandle calls).handles h = pendingAfter calls h
-Excluded class: scripts with `add`/`modify` → `AddNoValues` (or `extended` without a name) invoked on a
-handle with controls, timeout or search options pending. -/
-theorem C02_one_shot_partial (calls : List HandleCall) (hc : NoModifierAtRefusal calls.reverse) :
+/-- THE LAW of the property: "Controls, timeout and search options set on a handle affect exactly the
+next operation invoked on it and none after it."  On every script of calls: the k-th message sent has
+ID k and carries exactly the controls / timeout / (for a Search) options set on its handle since the
+previous operation invoked on that handle — sent, refused with `AddNoValues`, or a Search with an
+unparsable filter alike (last writer wins; a clone starts empty); any other operation discards pending
+search options; refused operations send nothing.  Afterwards every handle holds exactly what the law
+says is still pending.
+`NoNamelessExop`: the script contains no `extended` call with a nameless `Exop`.  That call violates the
+documented caller contract and panics in `construct_exop` (an explicit `Verdict.panic` of the model, see
+`C02_rejected_verdicts`); scripts containing it are covered by `C02_one_shot_with_panics`. -/
+theorem C02_one_shot (calls : List HandleCall) (hc : NoNamelessExop calls) :
     (runHandle calls).wire = expectedWire calls ∧ ∀ h, (runHandle calls).handles h = pendingAfter calls h := by
   obtain ⟨hw, hh⟩ := run_asBuilt calls
   refine ⟨?_, ?_⟩
-  · rw [hw, expectedWire, expectedFrom_agree calls [] 0 (by simpa using hc)]
-  · intro h; rw [hh h, pendingAfter, pendingHandle_agree h _ hc]
+  · rw [hw, expectedWire, expectedFrom_agree calls [] 0 (by simp) hc]
+  · intro h
+    rw [hh h, pendingAfter, pendingHandle_agree h _ (by intro c hcm; exact hc c (by simpa using hcm))]
 
-/-- The law FAILS on `oneShotWitness` = `with_controls([1.2 critical]); add("o=x", [("cn", {})]) → Err(AddNoValues);
-delete("o=x")`: the controls set before the refused `add` are still on the handle and go out with the
-`delete`. -/
-theorem C02_one_shot_fails :
-    (runHandle oneShotWitness).wire ≠ expectedWire oneShotWitness ∧
-    (runHandle oneShotWitness).wire.map Sent.ctrls = [some [⟨[0x31, 0x2e, 0x32], true, none⟩]] ∧
-    (expectedWire oneShotWitness).map Sent.ctrls = [none] ∧
-    ¬ NoModifierAtRefusal oneShotWitness.reverse := by
-  refine ⟨?_, by decide, by decide, by decide⟩
-  intro h
-  have := congrArg (List.map Sent.ctrls) h
-  revert this
-  decide
-
-/-- the same leak for the timeout and the search options (`oneShotWitness2`: a refused `modify`, then a Search) -/
-theorem C02_one_shot_fails_timeout_options :
-    (runHandle oneShotWitness2).wire.map Sent.timeout = [some 500] ∧
-    (expectedWire oneShotWitness2).map Sent.timeout = [none] ∧
-    (runHandle oneShotWitness2).wire.map (fun m => build m.req |>.toTlv |> encode) ≠
-      (expectedWire oneShotWitness2).map (fun m => build m.req |>.toTlv |> encode) := by
-  refine ⟨by decide, by decide, by decide⟩
+/-- Every script, panicking calls included (a caller that catches the unwind and goes on using the
+handle): the same law, except that the panicking `extended` call leaves the modifiers on the handle —
+it unwinds before anything is taken. -/
+theorem C02_one_shot_with_panics (calls : List HandleCall) :
+    (runHandle calls).wire = expectedFrom consumesUnlessPanic [] 0 calls ∧
+    ∀ h, (runHandle calls).handles h = pendingHandle consumesUnlessPanic h calls.reverse :=
+  run_asBuilt calls
 
 /-- End to end: every message a script puts on the wire is read back by the independent reader, from
 the bytes, as the operation that was invoked with its ID and the controls the model says it carried. -/
@@ -146,10 +127,16 @@ example : (parseTag (encodeMsg 7 (build (.delete [0x6f, 0x3d, 0x78])) (some [⟨
     fun | .ok t [] => (decodeRequest t).map (fun x => (x.1, x.2.2)) | _ => none) =
     some (7, some [⟨[0x31], true, some [5]⟩]) := by decide
 
-/-- a script inside the class of `C02_one_shot_partial`: modifiers, a clone, a refused add with nothing
-pending, a bad filter -/
-example : NoModifierAtRefusal ([HandleCall.withControls 0 [⟨[0x31], false, none⟩], .withTimeout 0 10,
-    .op 0 (.delete [0x78]), .clone 0 1, .withSearchOptions 1 ⟨.finding, true, 1, 2⟩, .op 0 (.add [0x78] [([0x61], [])]),
-    .searchBadFilter 1, .op 1 .unbind] : List HandleCall).reverse := by decide
+/-- a script meeting `C02_one_shot`'s hypothesis: modifiers before a refused add (they are used up), a
+clone, a bad filter, a named extended operation; the law's prediction evaluated -/
+example : NoNamelessExop [.withControls 0 [⟨[0x31], true, none⟩], .withTimeout 0 10,
+    .op 0 (.add [0x78] [([0x61], [])]), .op 0 (.delete [0x78]), .clone 0 1, .withSearchOptions 1 ⟨.finding, true, 1, 2⟩,
+    .searchBadFilter 1, .op 1 (.extended (some [0x31]) none), .op 1 .unbind] ∧
+    (expectedWire [.withControls 0 [⟨[0x31], true, none⟩], .withTimeout 0 10,
+      .op 0 (.add [0x78] [([0x61], [])]), .op 0 (.delete [0x78])]).map (fun m => (m.id, m.ctrls, m.timeout)) =
+      [(1, none, none)] ∧
+    (runHandle [.withControls 0 [⟨[0x31], true, none⟩], .withTimeout 0 10,
+      .op 0 (.add [0x78] [([0x61], [])]), .op 0 (.delete [0x78])]).wire.map (fun m => (m.id, m.ctrls, m.timeout)) =
+      [(1, none, none)] := by decide
 
 end Ldap3V
